@@ -166,13 +166,45 @@ def check_props_file(relpath):
     return res, True, out[-3000:]
 
 
-def hygiene():
+def dep_closure(props_files):
+    """.v files the given Props files depend on (transitively), from coqdep."""
+    rc, out, err = sh('coqdep -Q theories PyRTL $(find theories -name "*.v")', cwd=COQ)
+    deps = {}
+    for line in out.split('\n'):
+        if ':' not in line:
+            continue
+        lhs, rhs = line.split(':', 1)
+        tgt = [t for t in lhs.split() if t.endswith('.vo')]
+        if not tgt:
+            continue
+        v = tgt[0][:-1]
+        deps[v] = [d[:-1] for d in rhs.split() if d.endswith('.vo') and d.startswith('theories/')]
+    seen = set()
+    todo = list(props_files)
+    while todo:
+        v = todo.pop()
+        if v in seen:
+            continue
+        seen.add(v)
+        todo.extend(deps.get(v, []))
+    return seen
+
+
+def hygiene(props_files=None):
     bad = []
+    scope = None
+    if props_files:
+        try:
+            scope = dep_closure(props_files)
+        except Exception:
+            scope = None
     for dp, dn, fn in os.walk(os.path.join(COQ, 'theories')):
         for f in fn:
             if not f.endswith('.v'):
                 continue
             p = os.path.join(dp, f)
+            if scope is not None and os.path.relpath(p, COQ) not in scope:
+                continue
             txt = re.sub(r'\(\*.*?\*\)', '', open(p).read(), flags=re.S)
             in_section = 0
             for i, line in enumerate(txt.split('\n')):
@@ -290,7 +322,7 @@ def run_check(pid, tier, seed, replay=None):
             ctx.build_ok = False
             ctx.build_log += '\n' + flog
     ctx.obligations = obligations
-    bad = hygiene()
+    bad = hygiene(props_files)
     if bad:
         ctx.build_ok = False
         ctx.build_log += '\nHYGIENE: ' + '; '.join(bad[:10])
